@@ -285,3 +285,30 @@ def brute_min_cover(names, ranges, pts, F, CARE, limit=6):
             if frozenset().union(*combo) == target if combo else not target:
                 return k
     return None
+
+
+def other_min_cover_exists_setcover(k, returned, names, ranges, pts, F, CARE, timeout_ms=300000):
+    """Completeness as a selection problem over the explicitly enumerated maximal boxes: exactly k of them
+    cover F and, for every returned cover, at least one of its boxes is not selected."""
+    on = [p for p in pts if F[p]]
+    primes = explicit_primes(names, ranges, pts, F, CARE)
+    key = lambda b: tuple(sorted((n, tuple(v)) for n, v in b.items()))
+    index = {key(b): i for i, b in enumerate(primes)}
+    sel = [z3.Bool(f'sel{i}') for i in range(len(primes))]
+    sol = z3.Solver()
+    sol.set('timeout', timeout_ms)
+    for p in on:
+        sol.add(z3.Or([sel[i] for i, b in enumerate(primes) if in_box(b, names, p)]))
+    if not sel:
+        return 'unsat', None
+    sol.add(z3.AtMost(*sel, k), z3.AtLeast(*sel, k))
+    for cov in returned:
+        idx = [index.get(key(b)) for b in cov]
+        if any(i is None for i in idx):
+            continue      # a returned box that is not maximal: reported by the point-wise facts
+        sol.add(z3.Or([z3.Not(sel[i]) for i in idx]))
+    r = str(sol.check())
+    if r == 'sat':
+        m = sol.model()
+        return r, [b for i, b in enumerate(primes) if z3.is_true(m.eval(sel[i], model_completion=True))]
+    return r, None
